@@ -1,14 +1,14 @@
 import PharmpyModel.C06.EqHash
 /-
   Helper lemmas for C06 (eq/hash part): the simultaneous induction over a value and
-  its field chain.
+  its field chain.  Hash keys are compared by `keyEqv` (structural, entry sets as sets).
 -/
 namespace Pharmpy.C06
 
 theorem dictEq_short (a b : List (String × String)) (hl : a.length ≤ 1) (h : dictEq a b = true) : a = b := by
   unfold dictEq at h
   simp only [Bool.and_eq_true, beq_iff_eq, List.all_eq_true] at h
-  obtain ⟨hlen, hall⟩ := h
+  obtain ⟨⟨hlen, hall⟩, _⟩ := h
   match a, b, hl, hlen, hall with
   | [], [], _, _, _ => rfl
   | [x], [y], _, _, hall =>
@@ -30,32 +30,63 @@ theorem eqContent_of_not_identLike (d : Bool) (a b : Val) (h : isIdentLike a = f
 theorem contentKey_of_not_identLike (d a : Val) (h : isIdentLike a = false) : contentKey d a = d := by
   cases a <;> simp [isIdentLike] at h <;> simp [contentKey]
 
+theorem contentPartKey_of_not_identLike (d a : Val) (h : isIdentLike a = false) : contentPartKey d a = d := by
+  cases a <;> simp [isIdentLike] at h <;> simp [contentPartKey]
+
 theorem itemsKey_of_not_dict (d a : Val) (h : ∀ k, a ≠ .dict k) : itemsKey d a = d := by
   cases a <;> simp [itemsKey]
+  exact absurd rfl (h _)
+
+theorem itemSetKey_of_not_dict (d a : Val) (h : ∀ k, a ≠ .dict k) : itemSetKey d a = d := by
+  cases a <;> simp [itemSetKey]
   exact absurd rfl (h _)
 
 theorem fieldLawful_ordered (cm : CmpMode) (d : Bool) (h : Val) (hnd : ∀ k, h ≠ .dict k) :
     fieldLawful (some .orderedItems) (some cm) d h = (!isIdentLike h && d) := by
   cases cm <;> cases h <;> first | rfl | exact absurd rfl (hnd _)
 
+theorem fieldLawful_itemSet (cm : CmpMode) (d : Bool) (h : Val) (hnd : ∀ k, h ≠ .dict k) :
+    fieldLawful (some .itemSet) (some cm) d h = (!isIdentLike h && d) := by
+  cases cm <;> cases h <;> first | rfl | exact absurd rfl (hnd _)
+
 /-- The per-field step of the induction, independent of the recursion: `ih` is the
     induction hypothesis for the field value. -/
 theorem field_step (T : Table) (hm : HashMode) (cm : CmpMode) (h h' : Val)
-    (ih : lawful T h = true → eqV T h h' = true → hashKey T h = hashKey T h')
+    (ih : lawful T h = true → eqV T h h' = true → keyEqv (hashKey T h) (hashKey T h') = true)
     (lw : fieldLawful (some hm) (some cm) (lawful T h) h = true)
     (he : fieldEq cm (eqV T h h') h h' = true) :
-    fieldKey hm (hashKey T h) h = fieldKey hm (hashKey T h') h' := by
+    keyEqv (fieldKey hm (hashKey T h) h) (fieldKey hm (hashKey T h') h') = true := by
   unfold fieldKey
   unfold fieldEq at he
   -- the generic situation: the field value is not an identity object and is lawful itself
   have generic : isIdentLike h = false → lawful T h = true →
-      eqV T h h' = true ∧ hashKey T h = hashKey T h' ∧ isIdentLike h' = false := by
+      eqV T h h' = true ∧ keyEqv (hashKey T h) (hashKey T h') = true ∧ isIdentLike h' = false := by
     intro hi hl
     have e : eqV T h h' = true := by
       cases cm
       · exact he
       · simpa [eqContent_of_not_identLike _ h h' hi] using he
     exact ⟨e, ih hl e, by rw [← eqV_isIdentLike T h h' e]; exact hi⟩
+  -- a dict-valued field: the other side is a dict with the same entries up to order
+  have dictcase : ∀ a, h = .dict a → ∃ b, h' = .dict b ∧ dictEq a b = true := by
+    intro a ha
+    subst ha
+    have e : eqV T (.dict a) h' = true := by
+      cases cm
+      · exact he
+      · simpa [eqContent_of_not_identLike _ (.dict a) h' (by simp [isIdentLike])] using he
+    cases h' <;> simp [eqV] at e
+    exact ⟨_, rfl, e⟩
+  -- a non-dict field under a dict-sensitive hash mode
+  have nondict : (∀ k, h ≠ .dict k) → isIdentLike h = false → lawful T h = true →
+      keyEqv (hashKey T h) (hashKey T h') = true ∧ ∀ k, h' ≠ .dict k := by
+    intro hnd hi hl
+    obtain ⟨e, hk, _⟩ := generic hi hl
+    refine ⟨hk, ?_⟩
+    intro k hk'
+    subst hk'
+    obtain ⟨k0, hk0⟩ := eqV_dict_right T h k e
+    exact hnd k0 hk0
   cases hm with
   | plain =>
     cases cm with
@@ -68,58 +99,79 @@ theorem field_step (T : Table) (hm : HashMode) (cm : CmpMode) (h h' : Val)
     | plain =>
       simp only [fieldLawful, Bool.and_eq_true, Bool.not_eq_true'] at lw
       obtain ⟨_, hk, hi'⟩ := generic lw.1 lw.2
-      simp only [contentKey_of_not_identLike _ h lw.1, contentKey_of_not_identLike _ h' hi', hk]
+      simpa only [contentKey_of_not_identLike _ h lw.1, contentKey_of_not_identLike _ h' hi'] using hk
     | content =>
       simp only [fieldLawful, Bool.or_eq_true] at lw
       cases hi : isIdentLike h with
       | false =>
         have hl : lawful T h = true := by simpa [hi] using lw
         obtain ⟨_, hk, hi'⟩ := generic hi hl
-        simp only [contentKey_of_not_identLike _ h hi, contentKey_of_not_identLike _ h' hi', hk]
+        simpa only [contentKey_of_not_identLike _ h hi, contentKey_of_not_identLike _ h' hi'] using hk
       | true =>
         cases h <;> simp [isIdentLike] at hi <;> cases h' <;> simp [eqContent, eqV] at he <;>
-          simp [contentKey, he]
+          simp [contentKey, keyEqv, he]
+  | contentPart =>
+    cases cm with
+    | plain =>
+      simp only [fieldLawful, Bool.and_eq_true, Bool.not_eq_true'] at lw
+      obtain ⟨_, hk, hi'⟩ := generic lw.1 lw.2
+      simpa only [contentPartKey_of_not_identLike _ h lw.1, contentPartKey_of_not_identLike _ h' hi'] using hk
+    | content =>
+      simp only [fieldLawful, Bool.or_eq_true] at lw
+      cases hi : isIdentLike h with
+      | false =>
+        have hl : lawful T h = true := by simpa [hi] using lw
+        obtain ⟨_, hk, hi'⟩ := generic hi hl
+        simpa only [contentPartKey_of_not_identLike _ h hi, contentPartKey_of_not_identLike _ h' hi'] using hk
+      | true =>
+        cases h <;> simp [isIdentLike] at hi <;> cases h' <;> simp [eqContent, eqV] at he <;>
+          simp [contentPartKey, keyEqv, he]
   | orderedItems =>
     by_cases hd : ∃ k, h = .dict k
-    · obtain ⟨a, rfl⟩ := hd
-      have e : eqV T (.dict a) h' = true := by
-        cases cm
-        · exact he
-        · simpa [eqContent_of_not_identLike _ (.dict a) h' (by simp [isIdentLike])] using he
-      cases h' <;> simp [eqV] at e
+    · obtain ⟨a, ha⟩ := hd
+      obtain ⟨b, hb, hab⟩ := dictcase a ha
+      subst ha; subst hb
       have hl : a.length ≤ 1 := by cases cm <;> simpa [fieldLawful] using lw
-      simp [itemsKey, dictEq_short _ _ hl e]
+      simp [itemsKey, keyEqv, dictEq_short _ _ hl hab]
     · have hnd : ∀ k, h ≠ .dict k := fun k hk => hd ⟨k, hk⟩
       have lw' : isIdentLike h = false ∧ lawful T h = true := by
         rw [fieldLawful_ordered cm _ h hnd] at lw
         simpa using lw
-      obtain ⟨e, hk, _⟩ := generic lw'.1 lw'.2
-      have hnd' : ∀ k, h' ≠ .dict k := by
-        intro k hk'
-        subst hk'
-        obtain ⟨k0, hk0⟩ := eqV_dict_right T h k e
-        exact hnd k0 hk0
-      simp only [itemsKey_of_not_dict _ h hnd, itemsKey_of_not_dict _ h' hnd', hk]
+      obtain ⟨hk, hnd'⟩ := nondict hnd lw'.1 lw'.2
+      simpa only [itemsKey_of_not_dict _ h hnd, itemsKey_of_not_dict _ h' hnd'] using hk
+  | itemSet =>
+    by_cases hd : ∃ k, h = .dict k
+    · obtain ⟨a, ha⟩ := hd
+      obtain ⟨b, hb, hab⟩ := dictcase a ha
+      subst ha; subst hb
+      simp [itemSetKey, keyEqv, hab]
+    · have hnd : ∀ k, h ≠ .dict k := fun k hk => hd ⟨k, hk⟩
+      have lw' : isIdentLike h = false ∧ lawful T h = true := by
+        rw [fieldLawful_itemSet cm _ h hnd] at lw
+        simpa using lw
+      obtain ⟨hk, hnd'⟩ := nondict hnd lw'.1 lw'.2
+      simpa only [itemSetKey_of_not_dict _ h hnd, itemSetKey_of_not_dict _ h' hnd'] using hk
 
 /-- Core induction: on every value, both for `==` on the value and for the field-wise
     comparison of a field chain. -/
 theorem eq_hash_core (T : Table) : ∀ a : Val,
-    (∀ b, lawful T a = true → eqV T a b = true → hashKey T a = hashKey T b) ∧
-    (∀ fs b, lawfulFs T fs a = true → eqFs T fs a b = true → hashFs T fs a = hashFs T fs b) := by
+    (∀ b, lawful T a = true → eqV T a b = true → keyEqv (hashKey T a) (hashKey T b) = true) ∧
+    (∀ fs b, lawfulFs T fs a = true → eqFs T fs a b = true →
+      keyEqv (hashFs T fs a) (hashFs T fs b) = true) := by
   intro a
   induction a with
   | atom s =>
     refine ⟨?_, ?_⟩
     · intro b _ h
       cases b <;> simp [eqV] at h
-      subst h; rfl
+      subst h; simp [hashKey, keyEqv]
     · intro fs b _ h
       cases fs <;> cases b <;> simp [eqFs] at h
   | ident i c =>
     refine ⟨?_, ?_⟩
     · intro b _ h
       cases b <;> simp [eqV] at h
-      subst h; simp [hashKey]
+      subst h; simp [hashKey, keyEqv]
     · intro fs b _ h
       cases fs <;> cases b <;> simp [eqFs] at h
   | frame i c =>
@@ -132,17 +184,23 @@ theorem eq_hash_core (T : Table) : ∀ a : Val,
     refine ⟨?_, ?_⟩
     · intro b _ h
       cases b <;> simp [eqV] at h
-      simp [hashKey]
+      simp [hashKey, keyEqv]
+    · intro fs b _ h
+      cases fs <;> cases b <;> simp [eqFs] at h
+  | dset kvs =>
+    refine ⟨?_, ?_⟩
+    · intro b _ h
+      cases b <;> simp [eqV] at h
     · intro fs b _ h
       cases fs <;> cases b <;> simp [eqFs] at h
   | nil =>
     refine ⟨?_, ?_⟩
     · intro b _ h
       cases b <;> simp [eqV] at h
-      rfl
+      simp [hashKey, keyEqv]
     · intro fs b _ h
       cases fs <;> cases b <;> simp [eqFs] at h
-      rfl
+      simp [hashFs, keyEqv]
   | err w =>
     refine ⟨?_, ?_⟩
     · intro b _ h
@@ -154,8 +212,8 @@ theorem eq_hash_core (T : Table) : ∀ a : Val,
     · intro b hl h
       cases b <;> simp [eqV] at h
       simp only [lawful] at hl
-      simp only [hashKey]
-      rw [ih.1 _ hl h]
+      simp only [hashKey, keyEqv]
+      exact ih.1 _ hl h
     · intro fs b _ h
       cases fs <;> cases b <;> simp [eqFs] at h
   | obj c vs ih =>
@@ -170,7 +228,7 @@ theorem eq_hash_core (T : Table) : ∀ a : Val,
         cases hf : T.find c with
         | none => simp [hf] at h
         | some sp =>
-          simp only [hf, Bool.and_eq_true, Bool.or_eq_true, Bool.not_eq_true', beq_iff_eq] at h hl
+          simp only [hf, Bool.and_eq_true, Bool.or_eq_true, Bool.not_eq_true'] at h hl
           obtain ⟨hg, hfs⟩ := h
           cases hgd : sp.hashGuard with
           | true =>
@@ -178,8 +236,8 @@ theorem eq_hash_core (T : Table) : ∀ a : Val,
             exact hg
           | false =>
             simp [hgd] at hl
-            simp only [hashKey, hf]
-            rw [ih.2 _ _ hl hfs]
+            simp only [hashKey, hf, keyEqv, Bool.and_eq_true, beq_iff_eq, true_and]
+            exact ih.2 _ _ hl hfs
       | _ => simp [eqV] at h
     · intro fs b _ h
       cases fs <;> cases b <;> simp [eqFs] at h
@@ -188,8 +246,8 @@ theorem eq_hash_core (T : Table) : ∀ a : Val,
     · intro b hl h
       cases b <;> simp [eqV] at h
       simp only [lawful, Bool.and_eq_true] at hl
-      simp only [hashKey]
-      rw [ihh.1 _ hl.1 h.1, iht.1 _ hl.2 h.2]
+      simp only [hashKey, keyEqv, Bool.and_eq_true]
+      exact ⟨ihh.1 _ hl.1 h.1, iht.1 _ hl.2 h.2⟩
     · intro fs b hl h
       cases fs with
       | nil => cases b <;> simp [eqFs] at h
@@ -202,11 +260,13 @@ theorem eq_hash_core (T : Table) : ∀ a : Val,
           obtain ⟨lh, lt⟩ := hl
           have htl := iht.2 fs tl' lt ht
           simp only [hashFs]
-          rw [htl]
           rcases hhash : f.hash with _ | hm
-          · simp
+          · simpa using htl
           · rcases hcmp : f.cmp with _ | cm
             · simp [hhash, hcmp, fieldLawful] at lh
             · simp only [hhash, hcmp] at lh hh
-              simp only [field_step T hm cm hd hd' (ihh.1 hd') lh hh]
+              simp only [keyEqv, Bool.and_eq_true]
+              exact ⟨field_step T hm cm hd hd' (ihh.1 hd') lh hh, htl⟩
         | _ => simp [eqFs] at h
+
+end Pharmpy.C06
